@@ -291,8 +291,16 @@ theorem binarySearch_absent (tags : List Nat) (t : Nat) (h : t ∉ tags) : binar
 
 /-! ## `SearchRange` -/
 
+/-- `⌊log₂ n⌋ ≤ 15` for a `u16` count -/
+theorem log2_le_15 (n : Nat) (h : n ≤ 65535) : Nat.log2 n ≤ 15 := by
+  by_cases h0 : n = 0
+  · subst h0; decide
+  · have : Nat.log2 n < 16 := (Nat.log2_lt h0).2 (by omega)
+    omega
+
+/-- below 4096 items of 16 bytes nothing saturates: the three fields are the OpenType formula -/
 theorem searchRange_ok (n : Nat) (h : n < 4096) :
-    searchRange n 16 = some (2 ^ Nat.log2 n * 16, Nat.log2 n, n * 16 - 2 ^ Nat.log2 n * 16) := by
+    searchRange n 16 = (2 ^ Nat.log2 n * 16, Nat.log2 n, n * 16 - 2 ^ Nat.log2 n * 16) := by
   unfold searchRange
   have hl : Nat.log2 n < 12 := by
     by_cases h0 : n = 0
@@ -302,7 +310,29 @@ theorem searchRange_ok (n : Nat) (h : n < 4096) :
     have : 2 ^ Nat.log2 n ≤ 2 ^ 11 := Nat.pow_le_pow_right (by omega) (by omega)
     omega
   simp only []
-  rw [if_pos (by omega)]
+  rw [if_pos (by omega), if_pos (by omega), if_pos (by omega)]
+
+/-- from 4096 up to the `u16` table count: `searchRange` saturates, `entrySelector` is still
+`⌊log₂ n⌋`, `rangeShift` is the formula value computed from the unclamped search range, saturated -/
+theorem searchRange_sat (n : Nat) (h1 : 4096 ≤ n) (h2 : n ≤ 65535) :
+    searchRange n 16 = (65535, Nat.log2 n, min (n * 16 - 2 ^ Nat.log2 n * 16) 65535) := by
+  unfold searchRange
+  have hl := log2_le_15 n h2
+  have hp : 4096 ≤ 2 ^ Nat.log2 n := by
+    have h12 : 12 ≤ Nat.log2 n := (Nat.le_log2 (by omega)).2 (by omega)
+    have : 2 ^ 12 ≤ 2 ^ Nat.log2 n := Nat.pow_le_pow_right (by omega) h12
+    omega
+  simp only []
+  rw [if_neg (by omega), if_pos (by omega)]
+  congr 2
+  split <;> omega
+
+/-- every field is a `u16`, whatever the count -/
+theorem searchRange_u16 (n sz : Nat) :
+    (searchRange n sz).1 < 65536 ∧ (searchRange n sz).2.1 < 65536 ∧ (searchRange n sz).2.2 < 65536 := by
+  unfold searchRange
+  simp only []
+  refine ⟨?_, ?_, ?_⟩ <;> split <;> omega
 
 /-! ## sums -/
 
@@ -329,15 +359,15 @@ def recsOf (m : Tables) : List Rec := layoutRecs (ents m) (12 + m.length * 16)
 def sortedOf (m : Tables) : List Rec := (recsOf m).mergeSort (fun a b => decide (a.tag ≤ b.tag))
 
 def dirOf (m : Tables) : Bytes :=
-  dirBytes (2 ^ Nat.log2 m.length * 16) (Nat.log2 m.length)
-    (m.length * 16 - 2 ^ Nat.log2 m.length * 16) (sortedOf m)
+  dirBytes (searchRange m.length 16).1 (searchRange m.length 16).2.1 (searchRange m.length 16).2.2
+    (sortedOf m)
 
 def adjOf (m : Tables) : Nat :=
   (0xB1B0AFBA + 4294967296
     - wrappingSum ((recsOf m).map (·.checksum) ++ [checksum (dirOf m)])) % 4294967296
 
-/-- the container's size limits: `SearchRange` fields fit `u16`, positions fit `u32` -/
-def Fits (m : Tables) : Prop := m.length < 4096 ∧ fileSize m < 4294967296
+/-- the container's size limits: the table count fits the `u16` `numTables`, positions fit `u32` -/
+def Fits (m : Tables) : Prop := m.length ≤ 65535 ∧ fileSize m < 4294967296
 
 theorem orderedEntries_perm (m : Tables) : (orderedEntries m).Perm m := by
   unfold orderedEntries
@@ -359,7 +389,7 @@ theorem build_eq (m : Tables) (h : Fits m) :
   have hlay := layout_eq (ents m) (12 + m.length * 16) (by rw [ents_bodyLen]; omega)
   simp only [ents] at hlay
   unfold build
-  simp only [hhdr, hlay, searchRange_ok m.length hn]
+  simp only [hhdr, hlay]
   rw [if_neg (by omega)]
   rfl
 
@@ -676,8 +706,8 @@ theorem built_font (m : Tables) (hw : WFMap m) (hf : Fits m) (f : Bytes) (hb : b
   simp only [Option.some.injEq] at hb
   subst hb
   have hn : (sortedOf m).length < 65536 := by rw [sortedOf_length]; have := hf.1; omega
-  have := open_dir (2 ^ Nat.log2 m.length * 16) (Nat.log2 m.length)
-    (m.length * 16 - 2 ^ Nat.log2 m.length * 16) (sortedOf m) (bodyBytes (adjOf m) (ents m)) hn
+  have := open_dir (searchRange m.length 16).1 (searchRange m.length 16).2.1
+    (searchRange m.length 16).2.2 (sortedOf m) (bodyBytes (adjOf m) (ents m)) hn
     (fun r hr => rec_wf m hw hf r hr)
   rw [sortedOf_length] at this
   exact ⟨rfl, this.1, this.2⟩
